@@ -70,6 +70,28 @@ def judge_reuse(name, first, second):
     return None
 
 
+def judge_paths(name, data):
+    """the decode-on-construction paths (Cls(data), create_message(netfn, cmd, grp, data)) behave
+    exactly like decode_message on a fresh object: same values or the same error class"""
+    from pyipmi.msgs import create_message
+    cls = U.cls_of(name)
+    ref = U.attempt(lambda: U.decode_bytes(cls, data))
+    outs = {'decode_message': ref}
+    outs['constructor'] = U.attempt(lambda: U.canon_env(cls(data)))
+    outs['create_message'] = U.attempt(lambda: U.canon_env(
+        create_message(cls.__netfn__, cls.__cmdid__, cls.__group_extension__, data)))
+    for k in ('constructor', 'create_message'):
+        a, b = outs[k], ref
+        same = (type(a) is type(b)) if isinstance(a, Exception) or isinstance(b, Exception) else a == b
+        if not same:
+            return '%s path on %s gives %r, decode_message gives %r' % (k, data.hex(), a, b)
+    return None
+
+
+def oracle_paths(inp):
+    return judge_paths(inp['cls'], bytes.fromhex(inp['data']))
+
+
 def oracle_reuse(inp):
     return judge_reuse(inp['cls'], bytes.fromhex(inp['first']), bytes.fromhex(inp['second']))
 
@@ -78,6 +100,8 @@ def replay(data):
     r = data['replay']
     if r['oracle'] == 'decode_reuse':
         return oracle_reuse(r['input']) is None
+    if r['oracle'] == 'decode_paths':
+        return oracle_paths(r['input']) is None
     return oracle_decode(r['input']) is None
 
 
@@ -108,7 +132,21 @@ def run(ctx):
             fails[key] = C.Violation(key=key, what='%s: %s' % (name, msg),
                                      replay={'oracle': 'decode', 'input': {'cls': name, 'data': data.hex()}})
 
+    def paths(name, data):
+        res.evaluations += 1
+        msg = judge_paths(name, data)
+        key = 'decode-paths:' + name
+        if msg and key not in fails:
+            fails[key] = C.Violation(key=key, what='%s: %s' % (name, msg),
+                                     replay={'oracle': 'decode_paths', 'input': {'cls': name, 'data': data.hex()}})
+
     def case(name, data, kind):
+        if kind in ('len0', 'valid', 'truncation', 'cc-stop', 'extension'):
+            paths(name, data)
+            if kind == 'len0':
+                rc = U.attempt(lambda: U.canon_env(U.cls_of(name)(data)))
+                terms.append('chk_dec L_%s %s %s' % (name, C.c_hex(data), U.xres(rc, U.c_env)))
+                meta.append(('constructor-path', name, data.hex()))
         r = U.attempt(lambda: U.decode_bytes(U.cls_of(name), data))
         terms.append('chk_dec L_%s %s %s' % (name, C.c_hex(data), U.xres(r, U.c_env)))
         meta.append((kind, name, data.hex()))
